@@ -1050,6 +1050,31 @@ impl Sys {
         }
         let _ = not_destroyed_last;
 
+        // ---- outcome (C07): exactly the flagged entities are gone, every other entity of the population is alive with its
+        //      own values and its old handle; nothing outside the population was touched (len of every archetype) ----
+        if self.sc.want("C07") && panicked.is_none() {
+            for b in &pop {
+                let flagged = to_destroy.iter().any(|(x, _)| x == b);
+                let ent = if flagged { None } else { Some(self.models[w].live[b].clone()) };
+                let any = gecs::entity::EntityAny::from_raw(*b).unwrap();
+                let world = self.worlds[w].as_mut().unwrap();
+                let alive = guard("C07", "contains after ecs_iter_destroy!", || Ok(world.contains(any)))?;
+                ensure!(alive == !flagged, "C07", if flagged { "flagged-entity-survived" } else { "unflagged-entity-destroyed" },
+                    "after ecs_iter_destroy! the entity {:?} for which the closure returned {} is {}", b, if flagged { "ContinueDestroy/BreakDestroy" } else { "Continue/Break (or which was not reached)" }, if alive { "still alive" } else { "gone" });
+                if let Some(ent) = ent {
+                    let a = ent.arch as usize;
+                    let world = self.worlds[w].as_mut().unwrap();
+                    let row = guard("C07", "read of a survivor after ecs_iter_destroy!", || Ok(with_arch!(a, A => <A as Arch>::read(world, Hk::Any(any), RP_FIND))))?;
+                    let exp = with_arch!(a, A => <A as Arch>::expect(ent.uid, &ent.vals));
+                    ensure!(row.as_ref().map(|r| row_matches(a, r, &exp)).unwrap_or(false), "C07", "survivor-wrong-data", "after ecs_iter_destroy! the survivor {:?} (uid {}) reads {:x?}, expected {:x?}", b, ent.uid, row.map(|r| r.dig), exp);
+                }
+            }
+            for a in 0..NARCH {
+                let (len, _, _) = with_arch!(a, A => <A as Arch>::len_cap(self.world(w)));
+                ensure!(len == self.models[w].order[a].len(), "C07", "wrong-number-destroyed", "after ecs_iter_destroy! {} has len {}, {} entities should be alive", ARCH_NAMES[a], len, self.models[w].order[a].len());
+            }
+        }
+
         // ---- direct handles handed to the closure (C07 designation clause, C09 liveness clause) ----
         if self.sc.want("C07") || self.sc.want("C09") {
             for (j, (b, arch, d, uid)) in visit_arch.iter().enumerate() {
@@ -1062,13 +1087,13 @@ impl Sys {
                 self.c.direct_probes += 1;
                 match got {
                     Some(row) => {
-                        ensure!(!later_removal, "C09", "direct-survived-removal:iter_destroy", "direct handle {:?} handed out by ecs_iter_destroy! is still accepted although an entity of its archetype was destroyed afterwards", d);
+                        ensure_soft!(self.sc, !later_removal, "C09", "direct-survived-removal:iter_destroy", "direct handle {:?} handed out by ecs_iter_destroy! is still accepted although an entity of its archetype was destroyed afterwards", d);
                         ensure!(row.uid() == Some(*uid), "C07", "direct-designates-other:iter_destroy", "direct handle {:?} handed to the closure while visiting uid {} designates uid {:?}", d, uid, row.uid());
                         let _ = b;
                         self.c.direct_survived += 1;
                     }
                     None => {
-                        if !later_removal {
+                        if !later_removal && self.sc.want("C09") {
                             let sig = "direct-dead-on-arrival:iter_destroy";
                             if self.is_known("C09", sig) {
                                 self.note_known("C09", sig);
